@@ -100,11 +100,8 @@ def build_sandbox(root: Path, layout: str):
     else:
         st = root / 'storage'
         st.mkdir()
-    if layout == 'bare':
-        return st                  # nothing at all in the storage directory (its .gitignore was removed by hand)
-    if layout == 'bare-dangling-gitignore':
-        os.symlink('../outside/created_through_gitignore', st / '.gitignore')
-        return st
+    if layout in ('bare', 'bare-dangling-gitignore'):
+        return st                  # nothing at all in the storage directory (see _work for its .gitignore)
     (st / '.gitignore').write_text('*\n')
     if layout in ('keys', 'symlinks', 'via-symlink'):
         (st / 'k').mkdir()
@@ -242,7 +239,16 @@ def _work(item):
                 root = os.path.join(top, f's{counter}')
                 st = build_sandbox(Path(root), layout)
                 st_real = os.path.realpath(st)
-                storage = LocalStorage(os.path.join(root, 'storage'), with_gitignore=False)
+                if layout.startswith('bare'):
+                    # built the default way (labtech writes its .gitignore), then emptied by hand
+                    storage = LocalStorage(os.path.join(root, 'storage'))
+                    gi = os.path.join(st_real, '.gitignore')
+                    if os.path.lexists(gi):
+                        os.unlink(gi)
+                    if layout == 'bare-dangling-gitignore':
+                        os.symlink('../outside/created_through_gitignore', gi)
+                else:
+                    storage = LocalStorage(os.path.join(root, 'storage'), with_gitignore=False)
                 before = snapshot(Path(root))
                 dirty = False
             outside_abs = os.path.join(root, 'outside', 'secret')
